@@ -51,6 +51,11 @@ class Name(str, Enum):
     A = 'a'
 
 
+class Stage(Enum):          # a plain Enum whose VALUES are strings: its members are still not string keys
+    TRAIN = 'train'
+    TEST = 'test'
+
+
 @labtech.task
 class Leaf:
     x: object = 1
@@ -114,7 +119,7 @@ class NoCache:
         return 0
 
 
-SCALARS = [None, True, False, 0, 1, -1, 2 ** 70, 0.0, -0.0, 1.0, 1.5, float('inf'), 1e-320, '', 'a', '1', 'True', ' ', 'é', 'a/b', '_is_task',
+SCALARS = [None, True, False, 0, 1, -1, 2 ** 70, 0.0, -0.0, 1.0, 1.5, float('inf'), float('-inf'), 1e-320, '', 'a', '1', 'True', ' ', 'é', 'a/b', '_is_task',
            Color.RED, Color.BLUE, Shade.RED, Level.LOW, Name.A]
 UNSUPPORTED = [b'x', {1, 2}, object(), 1j, bytearray(b'x')]
 from fractions import Fraction      # noqa: E402
@@ -253,7 +258,7 @@ def check_discovery():
 def check_c15(tier):
     n = 0
     leaves = SCALARS + [Leaf(1), Leaf((1, 2)), Holder(v=[Leaf(1), Leaf(1)])]
-    for v in itertools.chain(trees(2 if tier == 'quick' else 3, leaves + UNSUPPORTED + [{1: 'a'}, {('a',): 1}, [{2: 2}]]), hashable_unsupported_shapes()):
+    for v in itertools.chain(trees(2 if tier == 'quick' else 3, leaves + UNSUPPORTED + [{1: 'a'}, {('a',): 1}, [{2: 2}], {Stage.TRAIN: 80}, {'ok': {Stage.TEST: 1, 'test': 2}}, {None: 1}, {Color.RED: 1}, {1.5: 1}, {True: 1}]), hashable_unsupported_shapes()):
         n += 1
         try:
             want = spec_norm(v)
@@ -288,7 +293,10 @@ def check_c15(tier):
             spec_norm(v)
         except KeyError:
             continue
-        t1, t2 = Holder(v=v), Holder(v=v)
+        try:
+            t1, t2 = Holder(v=v), Holder(v=v)
+        except BaseException as ex:     # noqa
+            return f'constructing Holder(v={v!r}) raised {type(ex).__name__}: {str(ex)[:120]} (the value is supported: the task must be built)', n
         if not (t1 == t2 and hash(t1) == hash(t2)):
             return f'Holder(v={v!r}) built twice is not equal / hash-equal', n
         if t1 == Leaf(v) if False else False:
@@ -512,6 +520,20 @@ def check_c09(tier):
             if len(got) != want_n or len(set(keys)) != len(keys):
                 dup = sorted({k for k in keys if keys.count(k) > 1})
                 return f'cached_tasks({[t.__name__ for t in query]}) returned {len(got)} tasks for {want_n} entries (keys listed more than once: {dup[:2]})', n
+        # tasks that are == but serialise differently (1 / 1.0, a dict with its keys in another order) are stored by separate calls
+        # under their own keys; each comes back as itself, with the key of the entry it was rebuilt from
+        va, vb = Holder(w=(1, {'a': 1, 'b': 2})), Holder(w=(1.0, {'b': 2, 'a': 1}))
+        lab.run_tasks([va], disable_progress=True, disable_top=True)
+        lab.run_tasks([vb], disable_progress=True, disable_top=True)
+        if va.cache_key != vb.cache_key:            # (that they differ is C07; here: what comes back)
+            back = [g for g in lab.cached_tasks([Holder]) if g == va]
+            for w in (va, vb):
+                m = [g for g in back if same_task(g, w)]
+                if len(m) != 1 or m[0].cache_key != w.cache_key:
+                    return (f'two == tasks that serialise differently were stored by separate calls; cached_tasks() returned {len(m)} task(s) structurally equal to {w!r} '
+                            f'with keys {[g.cache_key[-8:] for g in m]} (its entry is ...{w.cache_key[-8:]})'), n
+        else:
+            return f'two tasks built from different parameter trees ({va!r}, {vb!r}) carry the same cache_key, so the second call loaded the first one\'s entry', n
         # running the returned tasks loads the stored results
         got = lab.cached_tasks([Holder, Leaf])
         res = lab.run_tasks(got, disable_progress=True, disable_top=True)
@@ -519,6 +541,17 @@ def check_c09(tier):
             orig = [t for t in tasks if t.cache_key == g.cache_key]
             if orig and g not in res:
                 return f'running the reconstructed {g!r} did not load a result', n
+    # entries written by WORKER processes are listed by the same Lab object that listed the storage before they existed
+    with tempfile.TemporaryDirectory() as d2:
+        lab_f = labtech.Lab(storage=d2, runner_backend='fork', max_workers=2)
+        first = lab_f.cached_tasks([Leaf, Holder])
+        ws = [Leaf(7001), Holder(v=Leaf(7002))]
+        lab_f.run_tasks(ws, disable_progress=True, disable_top=True)
+        second = lab_f.cached_tasks([Leaf, Holder])
+        want_keys = sorted({ws[0].cache_key, ws[1].cache_key, Leaf(7002).cache_key})
+        if first or sorted(g.cache_key for g in second) != want_keys:
+            return (f'cached_tasks() listed {len(first)} tasks in an empty storage and {len(second)} of the {len(want_keys)} entries that worker processes '
+                    f'(fork backend) wrote afterwards through the same Lab object'), n
     return None, n
 
 
